@@ -462,6 +462,22 @@ class World(DuoWorld):
             self.run.violate("C20.explicit-error", "delivery-raised:%s:%s" % (direction, type(err).__name__), repr(err))
             return
         self.judge(op, direction, tampered, n_h, n_e, bad_key)
+        if tampered and direction in ("event", "invocation") and ch.flag("tampered-message-delivered-again", 0.35):
+            # the same altered message arrives once more (a router retrying, an attacker insisting): rejected again
+            n_h, n_e = len(self.handler_calls), len(self.endpoint_calls)
+            if direction == "invocation":
+                self.next_id += 1
+                # (a request id of its own: its reply belongs to no call)
+                msg = M.Invocation(self.next_id, msg.registration, payload=msg.payload, enc_algo=msg.enc_algo, enc_key=msg.enc_key,
+                                   enc_serializer=msg.enc_serializer, procedure=msg.procedure, receive_progress=msg.receive_progress)
+            self.run.fault("tamper:%s:again" % direction)
+            err = self.deliver_to(side, msg)
+            self.settle()
+            if err is not None:
+                self.run.violate("C20.explicit-error", "delivery-raised:%s:%s" % (direction, type(err).__name__), repr(err))
+            elif len(self.handler_calls) != n_h or len(self.endpoint_calls) != n_e:
+                self.run.violate("C20.exact-or-nothing", "application-invoked-for-tampered-%s-delivered-again:%s" % (direction, tampered),
+                                 repr((self.handler_calls[n_h:], self.endpoint_calls[n_e:]))[:200])
 
     def judge(self, op, direction, tampered, n_h, n_e, bad_key):
         run = self.run
